@@ -1,6 +1,6 @@
 (* C15  A graceful close persists what memory held.  One-key model (Hybrid/Engine.v). *)
 From Coq Require Import List NArith Bool.
-From FV Require Import Hybrid.Engine Hybrid.EngineInv Hybrid.EngineThms.
+From FV Require Import Hybrid.Engine Hybrid.EngineInv Hybrid.EngineThms Hybrid.EngineVers.
 Import ListNotations.
 Open Scope N_scope.
 
@@ -37,6 +37,15 @@ Theorem c15_close_reopen_lookup_partial : forall c s b v l a vis,
   lookup_now (do_recover c (do_close c s b) vis) = Some v.
 Proof. intros c s b v l a vis Hrr Hr. apply close_reopen_lookup; auto. apply reachable_kinv; auto. Qed.
 Print Assumptions c15_close_reopen_lookup_partial.
+
+(* in full: a scan that reads the device completely after the close serves exactly the resident version *)
+Theorem c15_close_reopen_serves_resident : forall c l b v lo a vis,
+  bug_rr c = false -> run_ok c init_k l -> foc c = true -> woi c = false -> accepts c = true ->
+  kmem (krun c init_k l) = Some (v, lo, a) -> lo <> LInMem -> a <> Young ->
+  (forall x, In x (kdisk (do_close c (krun c init_k l) b)) -> In x vis) ->
+  lookup_now (do_recover c (do_close c (krun c init_k l) b) vis) = Some v.
+Proof. exact close_reopen_serves_resident. Qed.
+Print Assumptions c15_close_reopen_serves_resident.
 
 (* with flush-on-close disabled nothing is written at close *)
 Theorem c15_no_flush_nothing_written : forall c s b, foc c = false -> ksubs (do_close c s b) = ksubs s.
